@@ -1,5 +1,5 @@
 // auto-generated: "lalrpop 0.23.1"
-// sha3: 5d902c7ebf090843e19fbec7dd92cd7c4251b7e4bf4acd9590e8f83b28f8863c
+// sha3: eb2bd32c7fbde373d1a4423fc9257f9db439af0dd06f9afdc5feb31d09575962
 use crate::rt::*;
 #[allow(unused_extern_crates)]
 extern crate lalrpop_util as __lalrpop_util;
@@ -29,30 +29,18 @@ mod __parse__N0 {
     }
     const __ACTION: &[i8] = &[
         // State 0
-        0, 0, 3, 0,
+        0, 0,
         // State 1
-        0, 0, 0, 0,
-        // State 2
-        0, 4, 0, 0,
-        // State 3
-        0, 0, 0, 5,
-        // State 4
-        0, 0, 0, 0,
+        0, 0,
     ];
     fn __action(state: i8, integer: usize) -> i8 {
-        __ACTION[(state as usize) * 4 + integer]
+        __ACTION[(state as usize) * 2 + integer]
     }
     const __EOF_ACTION: &[i8] = &[
         // State 0
-        0,
-        // State 1
-        -7,
-        // State 2
-        0,
-        // State 3
-        0,
-        // State 4
         -3,
+        // State 1
+        -11,
     ];
     fn __goto(state: i8, nt: usize) -> i8 {
         match nt {
@@ -64,8 +52,6 @@ mod __parse__N0 {
     const __TERMINAL: &[&str] = &[
         r###""t0""###,
         r###""t1""###,
-        r###""t2""###,
-        r###""t3""###,
     ];
     fn __expected_tokens(__state: i8) -> alloc::vec::Vec<alloc::string::String> {
         __TERMINAL.iter().enumerate().filter_map(|(index, terminal)| {
@@ -132,7 +118,7 @@ mod __parse__N0 {
 
         #[inline]
         fn error_action(&self, state: i8) -> i8 {
-            __action(state, 4 - 1)
+            __action(state, 2 - 1)
         }
 
         #[inline]
@@ -200,8 +186,6 @@ mod __parse__N0 {
         match __token {
             Tok('a', _, _, _) if true => Some(0),
             Tok('b', _, _, _) if true => Some(1),
-            Tok('c', _, _, _) if true => Some(2),
-            Tok('d', _, _, _) if true => Some(3),
             _ => None,
         }
     }
@@ -213,7 +197,7 @@ mod __parse__N0 {
     ) -> __Symbol<>
     {
         #[allow(clippy::manual_range_patterns)]match __token_index {
-            0 | 1 | 2 | 3 => __Symbol::Variant0(__token),
+            0 | 1 => __Symbol::Variant0(__token),
             _ => unreachable!(),
         }
     }
@@ -238,7 +222,7 @@ mod __parse__N0 {
             }
             2 => {
                 __state_machine::SimulatedReduce::Reduce {
-                    states_to_pop: 3,
+                    states_to_pop: 0,
                     nonterminal_produced: 2,
                 }
             }
@@ -250,17 +234,41 @@ mod __parse__N0 {
             }
             4 => {
                 __state_machine::SimulatedReduce::Reduce {
-                    states_to_pop: 3,
+                    states_to_pop: 2,
                     nonterminal_produced: 3,
                 }
             }
             5 => {
                 __state_machine::SimulatedReduce::Reduce {
-                    states_to_pop: 1,
-                    nonterminal_produced: 3,
+                    states_to_pop: 2,
+                    nonterminal_produced: 4,
                 }
             }
-            6 => __state_machine::SimulatedReduce::Accept,
+            6 => {
+                __state_machine::SimulatedReduce::Reduce {
+                    states_to_pop: 1,
+                    nonterminal_produced: 4,
+                }
+            }
+            7 => {
+                __state_machine::SimulatedReduce::Reduce {
+                    states_to_pop: 0,
+                    nonterminal_produced: 5,
+                }
+            }
+            8 => {
+                __state_machine::SimulatedReduce::Reduce {
+                    states_to_pop: 1,
+                    nonterminal_produced: 5,
+                }
+            }
+            9 => {
+                __state_machine::SimulatedReduce::Reduce {
+                    states_to_pop: 1,
+                    nonterminal_produced: 5,
+                }
+            }
+            10 => __state_machine::SimulatedReduce::Accept,
             _ => panic!("invalid reduction index {__reduce_index}")
         }
     }
@@ -356,6 +364,18 @@ mod __parse__N0 {
                 __reduce5(__lookahead_start, __symbols, core::marker::PhantomData::<()>)
             }
             6 => {
+                __reduce6(__lookahead_start, __symbols, core::marker::PhantomData::<()>)
+            }
+            7 => {
+                __reduce7(__lookahead_start, __symbols, core::marker::PhantomData::<()>)
+            }
+            8 => {
+                __reduce8(__lookahead_start, __symbols, core::marker::PhantomData::<()>)
+            }
+            9 => {
+                __reduce9(__lookahead_start, __symbols, core::marker::PhantomData::<()>)
+            }
+            10 => {
                 // __N0 = N0 => ActionFn(0);
                 let __sym0 = __pop_Variant2(__symbols);
                 let __start = __sym0.0.clone();
@@ -413,10 +433,10 @@ mod __parse__N0 {
         _: core::marker::PhantomData<()>,
     ) -> (usize, usize)
     {
-        // @L =  => ActionFn(6);
+        // @L =  => ActionFn(10);
         let __start = __lookahead_start.cloned().or_else(|| __symbols.last().map(|s| s.2.clone())).unwrap_or_default();
         let __end = __start.clone();
-        let __nt = super::__action6::<>(&__start, &__end);
+        let __nt = super::__action10::<>(&__start, &__end);
         __symbols.push((__start, __Symbol::Variant1(__nt), __end));
         (0, 0)
     }
@@ -427,10 +447,10 @@ mod __parse__N0 {
         _: core::marker::PhantomData<()>,
     ) -> (usize, usize)
     {
-        // @R =  => ActionFn(5);
+        // @R =  => ActionFn(9);
         let __start = __lookahead_start.cloned().or_else(|| __symbols.last().map(|s| s.2.clone())).unwrap_or_default();
         let __end = __start.clone();
-        let __nt = super::__action5::<>(&__start, &__end);
+        let __nt = super::__action9::<>(&__start, &__end);
         __symbols.push((__start, __Symbol::Variant1(__nt), __end));
         (0, 1)
     }
@@ -441,16 +461,12 @@ mod __parse__N0 {
         _: core::marker::PhantomData<()>,
     ) -> (usize, usize)
     {
-        // N0 = "t2", "t1", "t3" => ActionFn(11);
-        assert!(__symbols.len() >= 3);
-        let __sym2 = __pop_Variant0(__symbols);
-        let __sym1 = __pop_Variant0(__symbols);
-        let __sym0 = __pop_Variant0(__symbols);
-        let __start = __sym0.0.clone();
-        let __end = __sym2.2.clone();
-        let __nt = super::__action11::<>(__sym0, __sym1, __sym2);
+        // N0 =  => ActionFn(19);
+        let __start = __lookahead_start.cloned().or_else(|| __symbols.last().map(|s| s.2.clone())).unwrap_or_default();
+        let __end = __start.clone();
+        let __nt = super::__action19::<>(&__start, &__end);
         __symbols.push((__start, __Symbol::Variant2(__nt), __end));
-        (3, 2)
+        (0, 2)
     }
     fn __reduce3<
     >(
@@ -459,10 +475,10 @@ mod __parse__N0 {
         _: core::marker::PhantomData<()>,
     ) -> (usize, usize)
     {
-        // N1 =  => ActionFn(12);
+        // N1 =  => ActionFn(20);
         let __start = __lookahead_start.cloned().or_else(|| __symbols.last().map(|s| s.2.clone())).unwrap_or_default();
         let __end = __start.clone();
-        let __nt = super::__action12::<>(&__start, &__end);
+        let __nt = super::__action20::<>(&__start, &__end);
         __symbols.push((__start, __Symbol::Variant2(__nt), __end));
         (0, 3)
     }
@@ -473,16 +489,15 @@ mod __parse__N0 {
         _: core::marker::PhantomData<()>,
     ) -> (usize, usize)
     {
-        // N1 = "t0", "t3", N0 => ActionFn(13);
-        assert!(__symbols.len() >= 3);
-        let __sym2 = __pop_Variant2(__symbols);
-        let __sym1 = __pop_Variant0(__symbols);
+        // N1 = "t0", N2 => ActionFn(21);
+        assert!(__symbols.len() >= 2);
+        let __sym1 = __pop_Variant2(__symbols);
         let __sym0 = __pop_Variant0(__symbols);
         let __start = __sym0.0.clone();
-        let __end = __sym2.2.clone();
-        let __nt = super::__action13::<>(__sym0, __sym1, __sym2);
+        let __end = __sym1.2.clone();
+        let __nt = super::__action21::<>(__sym0, __sym1);
         __symbols.push((__start, __Symbol::Variant2(__nt), __end));
-        (3, 3)
+        (2, 3)
     }
     fn __reduce5<
     >(
@@ -491,13 +506,74 @@ mod __parse__N0 {
         _: core::marker::PhantomData<()>,
     ) -> (usize, usize)
     {
-        // N1 = "t0" => ActionFn(14);
+        // N2 = N0, "t1" => ActionFn(22);
+        assert!(__symbols.len() >= 2);
+        let __sym1 = __pop_Variant0(__symbols);
+        let __sym0 = __pop_Variant2(__symbols);
+        let __start = __sym0.0.clone();
+        let __end = __sym1.2.clone();
+        let __nt = super::__action22::<>(__sym0, __sym1);
+        __symbols.push((__start, __Symbol::Variant2(__nt), __end));
+        (2, 4)
+    }
+    fn __reduce6<
+    >(
+        __lookahead_start: Option<&i64>,
+        __symbols: &mut alloc::vec::Vec<(i64,__Symbol<>,i64)>,
+        _: core::marker::PhantomData<()>,
+    ) -> (usize, usize)
+    {
+        // N2 = N0 => ActionFn(23);
+        let __sym0 = __pop_Variant2(__symbols);
+        let __start = __sym0.0.clone();
+        let __end = __sym0.2.clone();
+        let __nt = super::__action23::<>(__sym0);
+        __symbols.push((__start, __Symbol::Variant2(__nt), __end));
+        (1, 4)
+    }
+    fn __reduce7<
+    >(
+        __lookahead_start: Option<&i64>,
+        __symbols: &mut alloc::vec::Vec<(i64,__Symbol<>,i64)>,
+        _: core::marker::PhantomData<()>,
+    ) -> (usize, usize)
+    {
+        // N3 =  => ActionFn(24);
+        let __start = __lookahead_start.cloned().or_else(|| __symbols.last().map(|s| s.2.clone())).unwrap_or_default();
+        let __end = __start.clone();
+        let __nt = super::__action24::<>(&__start, &__end);
+        __symbols.push((__start, __Symbol::Variant2(__nt), __end));
+        (0, 5)
+    }
+    fn __reduce8<
+    >(
+        __lookahead_start: Option<&i64>,
+        __symbols: &mut alloc::vec::Vec<(i64,__Symbol<>,i64)>,
+        _: core::marker::PhantomData<()>,
+    ) -> (usize, usize)
+    {
+        // N3 = N2 => ActionFn(25);
+        let __sym0 = __pop_Variant2(__symbols);
+        let __start = __sym0.0.clone();
+        let __end = __sym0.2.clone();
+        let __nt = super::__action25::<>(__sym0);
+        __symbols.push((__start, __Symbol::Variant2(__nt), __end));
+        (1, 5)
+    }
+    fn __reduce9<
+    >(
+        __lookahead_start: Option<&i64>,
+        __symbols: &mut alloc::vec::Vec<(i64,__Symbol<>,i64)>,
+        _: core::marker::PhantomData<()>,
+    ) -> (usize, usize)
+    {
+        // N3 = "t0" => ActionFn(26);
         let __sym0 = __pop_Variant0(__symbols);
         let __start = __sym0.0.clone();
         let __end = __sym0.2.clone();
-        let __nt = super::__action14::<>(__sym0);
+        let __nt = super::__action26::<>(__sym0);
         __symbols.push((__start, __Symbol::Variant2(__nt), __end));
-        (1, 3)
+        (1, 5)
     }
 }
 #[allow(unused_imports)]
@@ -516,13 +592,10 @@ fn __action0<
 fn __action1<
 >(
     (_, l, _): (i64, i64, i64),
-    (_, c0, _): (i64, Tok, i64),
-    (_, c1, _): (i64, Tok, i64),
-    (_, c2, _): (i64, Tok, i64),
     (_, r, _): (i64, i64, i64),
 ) -> Tree
 {
-    node("N0#0", l, r, vec![Tree::from(c0), Tree::from(c1), Tree::from(c2)])
+    node("N0#0", l, r, vec![])
 }
 
 #[allow(clippy::too_many_arguments, clippy::needless_lifetimes, clippy::just_underscores_and_digits, clippy::extra_unused_type_parameters)]
@@ -539,29 +612,71 @@ fn __action2<
 fn __action3<
 >(
     (_, l, _): (i64, i64, i64),
-    (_, pL0, _): (i64, i64, i64),
     (_, c0, _): (i64, Tok, i64),
-    (_, c1, _): (i64, Tok, i64),
-    (_, c2, _): (i64, Tree, i64),
+    (_, c1, _): (i64, Tree, i64),
     (_, r, _): (i64, i64, i64),
 ) -> Tree
 {
-    { probe("N1#1", 0, 'L', pL0); node("N1#1", l, r, vec![Tree::from(c0), Tree::from(c1), Tree::from(c2)]) }
+    node("N1#1", l, r, vec![Tree::from(c0), Tree::from(c1)])
 }
 
 #[allow(clippy::too_many_arguments, clippy::needless_lifetimes, clippy::just_underscores_and_digits, clippy::extra_unused_type_parameters)]
 fn __action4<
 >(
     (_, l, _): (i64, i64, i64),
+    (_, c0, _): (i64, Tree, i64),
+    (_, c1, _): (i64, Tok, i64),
+    (_, r, _): (i64, i64, i64),
+) -> Tree
+{
+    node("N2#0", l, r, vec![Tree::from(c0), Tree::from(c1)])
+}
+
+#[allow(clippy::too_many_arguments, clippy::needless_lifetimes, clippy::just_underscores_and_digits, clippy::extra_unused_type_parameters)]
+fn __action5<
+>(
+    (_, l, _): (i64, i64, i64),
+    (_, c0, _): (i64, Tree, i64),
+    (_, r, _): (i64, i64, i64),
+) -> Tree
+{
+    node("N2#1", l, r, vec![Tree::from(c0)])
+}
+
+#[allow(clippy::too_many_arguments, clippy::needless_lifetimes, clippy::just_underscores_and_digits, clippy::extra_unused_type_parameters)]
+fn __action6<
+>(
+    (_, l, _): (i64, i64, i64),
+    (_, r, _): (i64, i64, i64),
+) -> Tree
+{
+    node("N3#0", l, r, vec![])
+}
+
+#[allow(clippy::too_many_arguments, clippy::needless_lifetimes, clippy::just_underscores_and_digits, clippy::extra_unused_type_parameters)]
+fn __action7<
+>(
+    (_, l, _): (i64, i64, i64),
+    (_, c0, _): (i64, Tree, i64),
+    (_, r, _): (i64, i64, i64),
+) -> Tree
+{
+    node("N3#1", l, r, vec![Tree::from(c0)])
+}
+
+#[allow(clippy::too_many_arguments, clippy::needless_lifetimes, clippy::just_underscores_and_digits, clippy::extra_unused_type_parameters)]
+fn __action8<
+>(
+    (_, l, _): (i64, i64, i64),
     (_, c0, _): (i64, Tok, i64),
     (_, r, _): (i64, i64, i64),
 ) -> Tree
 {
-    node("N1#2", l, r, vec![Tree::from(c0)])
+    node("N3#2", l, r, vec![Tree::from(c0)])
 }
 
 #[allow(clippy::needless_lifetimes, clippy::clone_on_copy)]
-fn __action5<
+fn __action9<
 >(
     __lookbehind: &i64,
     __lookahead: &i64,
@@ -571,7 +686,7 @@ fn __action5<
 }
 
 #[allow(clippy::needless_lifetimes, clippy::clone_on_copy)]
-fn __action6<
+fn __action10<
 >(
     __lookbehind: &i64,
     __lookahead: &i64,
@@ -582,17 +697,14 @@ fn __action6<
 
 #[allow(clippy::too_many_arguments, clippy::needless_lifetimes,
     clippy::just_underscores_and_digits, clippy::clone_on_copy, clippy::unit_arg)]
-fn __action7<
+fn __action11<
 >(
-    __0: (i64, Tok, i64),
-    __1: (i64, Tok, i64),
-    __2: (i64, Tok, i64),
-    __3: (i64, i64, i64),
+    __0: (i64, i64, i64),
 ) -> Tree
 {
     let __start0 = __0.0.clone();
     let __end0 = __0.0.clone();
-    let __temp0 = __action6(
+    let __temp0 = __action10(
         &__start0,
         &__end0,
     );
@@ -600,22 +712,19 @@ fn __action7<
     __action1(
         __temp0,
         __0,
-        __1,
-        __2,
-        __3,
     )
 }
 
 #[allow(clippy::too_many_arguments, clippy::needless_lifetimes,
     clippy::just_underscores_and_digits, clippy::clone_on_copy, clippy::unit_arg)]
-fn __action8<
+fn __action12<
 >(
     __0: (i64, i64, i64),
 ) -> Tree
 {
     let __start0 = __0.0.clone();
     let __end0 = __0.0.clone();
-    let __temp0 = __action6(
+    let __temp0 = __action10(
         &__start0,
         &__end0,
     );
@@ -628,49 +737,40 @@ fn __action8<
 
 #[allow(clippy::too_many_arguments, clippy::needless_lifetimes,
     clippy::just_underscores_and_digits, clippy::clone_on_copy, clippy::unit_arg)]
-fn __action9<
+fn __action13<
 >(
     __0: (i64, Tok, i64),
-    __1: (i64, Tok, i64),
-    __2: (i64, Tree, i64),
-    __3: (i64, i64, i64),
+    __1: (i64, Tree, i64),
+    __2: (i64, i64, i64),
 ) -> Tree
 {
     let __start0 = __0.0.clone();
     let __end0 = __0.0.clone();
-    let __start1 = __0.0.clone();
-    let __end1 = __0.0.clone();
-    let __temp0 = __action6(
+    let __temp0 = __action10(
         &__start0,
         &__end0,
     );
     let __temp0 = (__start0, __temp0, __end0);
-    let __temp1 = __action6(
-        &__start1,
-        &__end1,
-    );
-    let __temp1 = (__start1, __temp1, __end1);
     __action3(
         __temp0,
-        __temp1,
         __0,
         __1,
         __2,
-        __3,
     )
 }
 
 #[allow(clippy::too_many_arguments, clippy::needless_lifetimes,
     clippy::just_underscores_and_digits, clippy::clone_on_copy, clippy::unit_arg)]
-fn __action10<
+fn __action14<
 >(
-    __0: (i64, Tok, i64),
-    __1: (i64, i64, i64),
+    __0: (i64, Tree, i64),
+    __1: (i64, Tok, i64),
+    __2: (i64, i64, i64),
 ) -> Tree
 {
     let __start0 = __0.0.clone();
     let __end0 = __0.0.clone();
-    let __temp0 = __action6(
+    let __temp0 = __action10(
         &__start0,
         &__end0,
     );
@@ -679,36 +779,99 @@ fn __action10<
         __temp0,
         __0,
         __1,
+        __2,
     )
 }
 
 #[allow(clippy::too_many_arguments, clippy::needless_lifetimes,
     clippy::just_underscores_and_digits, clippy::clone_on_copy, clippy::unit_arg)]
-fn __action11<
+fn __action15<
 >(
-    __0: (i64, Tok, i64),
-    __1: (i64, Tok, i64),
-    __2: (i64, Tok, i64),
+    __0: (i64, Tree, i64),
+    __1: (i64, i64, i64),
 ) -> Tree
 {
-    let __start0 = __2.2.clone();
-    let __end0 = __2.2.clone();
-    let __temp0 = __action5(
+    let __start0 = __0.0.clone();
+    let __end0 = __0.0.clone();
+    let __temp0 = __action10(
+        &__start0,
+        &__end0,
+    );
+    let __temp0 = (__start0, __temp0, __end0);
+    __action5(
+        __temp0,
+        __0,
+        __1,
+    )
+}
+
+#[allow(clippy::too_many_arguments, clippy::needless_lifetimes,
+    clippy::just_underscores_and_digits, clippy::clone_on_copy, clippy::unit_arg)]
+fn __action16<
+>(
+    __0: (i64, i64, i64),
+) -> Tree
+{
+    let __start0 = __0.0.clone();
+    let __end0 = __0.0.clone();
+    let __temp0 = __action10(
+        &__start0,
+        &__end0,
+    );
+    let __temp0 = (__start0, __temp0, __end0);
+    __action6(
+        __temp0,
+        __0,
+    )
+}
+
+#[allow(clippy::too_many_arguments, clippy::needless_lifetimes,
+    clippy::just_underscores_and_digits, clippy::clone_on_copy, clippy::unit_arg)]
+fn __action17<
+>(
+    __0: (i64, Tree, i64),
+    __1: (i64, i64, i64),
+) -> Tree
+{
+    let __start0 = __0.0.clone();
+    let __end0 = __0.0.clone();
+    let __temp0 = __action10(
         &__start0,
         &__end0,
     );
     let __temp0 = (__start0, __temp0, __end0);
     __action7(
+        __temp0,
         __0,
         __1,
-        __2,
-        __temp0,
     )
 }
 
 #[allow(clippy::too_many_arguments, clippy::needless_lifetimes,
     clippy::just_underscores_and_digits, clippy::clone_on_copy, clippy::unit_arg)]
-fn __action12<
+fn __action18<
+>(
+    __0: (i64, Tok, i64),
+    __1: (i64, i64, i64),
+) -> Tree
+{
+    let __start0 = __0.0.clone();
+    let __end0 = __0.0.clone();
+    let __temp0 = __action10(
+        &__start0,
+        &__end0,
+    );
+    let __temp0 = (__start0, __temp0, __end0);
+    __action8(
+        __temp0,
+        __0,
+        __1,
+    )
+}
+
+#[allow(clippy::too_many_arguments, clippy::needless_lifetimes,
+    clippy::just_underscores_and_digits, clippy::clone_on_copy, clippy::unit_arg)]
+fn __action19<
 >(
     __lookbehind: &i64,
     __lookahead: &i64,
@@ -716,55 +879,155 @@ fn __action12<
 {
     let __start0 = __lookbehind.clone();
     let __end0 = __lookahead.clone();
-    let __temp0 = __action5(
+    let __temp0 = __action9(
         &__start0,
         &__end0,
     );
     let __temp0 = (__start0, __temp0, __end0);
-    __action8(
+    __action11(
         __temp0,
     )
 }
 
 #[allow(clippy::too_many_arguments, clippy::needless_lifetimes,
     clippy::just_underscores_and_digits, clippy::clone_on_copy, clippy::unit_arg)]
-fn __action13<
+fn __action20<
 >(
-    __0: (i64, Tok, i64),
-    __1: (i64, Tok, i64),
-    __2: (i64, Tree, i64),
+    __lookbehind: &i64,
+    __lookahead: &i64,
 ) -> Tree
 {
-    let __start0 = __2.2.clone();
-    let __end0 = __2.2.clone();
-    let __temp0 = __action5(
+    let __start0 = __lookbehind.clone();
+    let __end0 = __lookahead.clone();
+    let __temp0 = __action9(
         &__start0,
         &__end0,
     );
     let __temp0 = (__start0, __temp0, __end0);
-    __action9(
-        __0,
-        __1,
-        __2,
+    __action12(
         __temp0,
     )
 }
 
 #[allow(clippy::too_many_arguments, clippy::needless_lifetimes,
     clippy::just_underscores_and_digits, clippy::clone_on_copy, clippy::unit_arg)]
-fn __action14<
+fn __action21<
+>(
+    __0: (i64, Tok, i64),
+    __1: (i64, Tree, i64),
+) -> Tree
+{
+    let __start0 = __1.2.clone();
+    let __end0 = __1.2.clone();
+    let __temp0 = __action9(
+        &__start0,
+        &__end0,
+    );
+    let __temp0 = (__start0, __temp0, __end0);
+    __action13(
+        __0,
+        __1,
+        __temp0,
+    )
+}
+
+#[allow(clippy::too_many_arguments, clippy::needless_lifetimes,
+    clippy::just_underscores_and_digits, clippy::clone_on_copy, clippy::unit_arg)]
+fn __action22<
+>(
+    __0: (i64, Tree, i64),
+    __1: (i64, Tok, i64),
+) -> Tree
+{
+    let __start0 = __1.2.clone();
+    let __end0 = __1.2.clone();
+    let __temp0 = __action9(
+        &__start0,
+        &__end0,
+    );
+    let __temp0 = (__start0, __temp0, __end0);
+    __action14(
+        __0,
+        __1,
+        __temp0,
+    )
+}
+
+#[allow(clippy::too_many_arguments, clippy::needless_lifetimes,
+    clippy::just_underscores_and_digits, clippy::clone_on_copy, clippy::unit_arg)]
+fn __action23<
+>(
+    __0: (i64, Tree, i64),
+) -> Tree
+{
+    let __start0 = __0.2.clone();
+    let __end0 = __0.2.clone();
+    let __temp0 = __action9(
+        &__start0,
+        &__end0,
+    );
+    let __temp0 = (__start0, __temp0, __end0);
+    __action15(
+        __0,
+        __temp0,
+    )
+}
+
+#[allow(clippy::too_many_arguments, clippy::needless_lifetimes,
+    clippy::just_underscores_and_digits, clippy::clone_on_copy, clippy::unit_arg)]
+fn __action24<
+>(
+    __lookbehind: &i64,
+    __lookahead: &i64,
+) -> Tree
+{
+    let __start0 = __lookbehind.clone();
+    let __end0 = __lookahead.clone();
+    let __temp0 = __action9(
+        &__start0,
+        &__end0,
+    );
+    let __temp0 = (__start0, __temp0, __end0);
+    __action16(
+        __temp0,
+    )
+}
+
+#[allow(clippy::too_many_arguments, clippy::needless_lifetimes,
+    clippy::just_underscores_and_digits, clippy::clone_on_copy, clippy::unit_arg)]
+fn __action25<
+>(
+    __0: (i64, Tree, i64),
+) -> Tree
+{
+    let __start0 = __0.2.clone();
+    let __end0 = __0.2.clone();
+    let __temp0 = __action9(
+        &__start0,
+        &__end0,
+    );
+    let __temp0 = (__start0, __temp0, __end0);
+    __action17(
+        __0,
+        __temp0,
+    )
+}
+
+#[allow(clippy::too_many_arguments, clippy::needless_lifetimes,
+    clippy::just_underscores_and_digits, clippy::clone_on_copy, clippy::unit_arg)]
+fn __action26<
 >(
     __0: (i64, Tok, i64),
 ) -> Tree
 {
     let __start0 = __0.2.clone();
     let __end0 = __0.2.clone();
-    let __temp0 = __action5(
+    let __temp0 = __action9(
         &__start0,
         &__end0,
     );
     let __temp0 = (__start0, __temp0, __end0);
-    __action10(
+    __action18(
         __0,
         __temp0,
     )
